@@ -181,8 +181,16 @@ def r_expand(P, u, rep):
                    where=where, facts=facts)
             rma = calls[names.index('read_macro_args')]
             a = [show(D.of(x)) for x in rma[2]]
-            rep.ob('R09.4', '%s:%s:read_macro_args-operands' % (U, fn), a[1:] == ['tok', 'find_macro.params', 'find_macro.va_args_name'],
-                   'read_macro_args is called with %r instead of (&tok, tok, m->params, m->va_args_name)' % (a,), where='%s:%d' % (U, rma[3]), facts=facts)
+            try:
+                from ..build import require_signature
+                require_signature(u, 'read_macro_args', ['Token **', 'Token *', 'MacroParam *', 'char *'], 'MacroArg *')
+                sig_ok = True
+            except AnalysisBroken as e_:
+                sig_ok = False
+                rep.undecided('R09.4', '%s:%s:read_macro_args-operands' % (U, fn), str(e_), where='%s:%d' % (U, rma[3]))
+            if sig_ok:
+                rep.ob('R09.4', '%s:%s:read_macro_args-operands' % (U, fn), a[1:] == ['tok', 'find_macro.params', 'find_macro.va_args_name'],
+                       'read_macro_args is called with %r instead of (&tok, tok, m->params, m->va_args_name)' % (a,), where='%s:%d' % (U, rma[3]), facts=facts)
         m = None
         for e in calls:
             if e[0] == 'call' and e[1] == 'find_macro':
@@ -2054,6 +2062,9 @@ def r_args(P, u, rep):
     for f in (fn, 'read_macro_arg_one', 'new_eof'):
         if f not in u.functions:
             raise AnalysisBroken('anchor %s vanished' % f)
+    from ..build import require_signature
+    require_signature(u, fn, ['Token **', 'Token *', 'MacroParam *', 'char *'], 'MacroArg *')
+    require_signature(u, 'read_macro_arg_one', ['Token **', 'Token *', 'bool'], 'MacroArg *')
 
     def cut_one(it, ctx, n, args):
         if len(args) != 3 or not isinstance(args[0], _Ref):
@@ -2603,9 +2614,32 @@ def r_pp_number(P, rep):
     A.flush()
 
 
+def _m_memcpy(it, ctx, n, args):
+    """memcpy(d, s, k) into a concrete buffer from a concrete string: the k bytes of s (its terminator included if k reaches it)"""
+    d, sx, k = args[0], args[1], it.settle(args[2])
+    if not (isinstance(d, _Ref) and isinstance(d.place, ElemPlace) and isinstance(sx, str) and isinstance(k, int)):
+        raise AnalysisBroken('memcpy shape not understood at line %d' % n.line)
+    if k > len(sx) + 1:
+        raise AnalysisBroken('memcpy reads past the end of its source at line %d' % n.line)
+    for i in range(k):
+        ElemPlace(d.place.arr, d.place.i + i).set(it, ord(sx[i]) if i < len(sx) else 0)
+    return d
+
+
+def _m_strchr_conc(it, ctx, n, args):
+    s_, c = args[0], it.settle(args[1])
+    if not isinstance(s_, str) or not isinstance(c, int) or c == 0:
+        raise AnalysisBroken('strchr() on operands that are not concrete (line %d)' % n.line)
+    i = s_.find(chr(c & 0xff))
+    return s_[i:] if i >= 0 else 0
+
+
 def _conc(P, u, **kw):
     cfg = {'track_stores': False, 'loop_limit': 0, 'rec_limit': 64}
+    models = {'memcpy': _m_memcpy, 'strchr': _m_strchr_conc}
+    models.update(kw.pop('models', {}) or {})
     cfg.update(kw)
+    cfg['models'] = models
     return PInterp(P, u, cfg)
 
 
